@@ -70,6 +70,17 @@ CHECKS = {
         'shallow clones), and after every mutation of either side (full op surface, opaque-leaf mutation) the other side is unchanged. Exploration.',
         'Snapshot oracle built on sym_items; mixed sealing (unsealed node under a sealed one) compared at the root only; allow_partial compared on the cloned value itself.',
         'DESIGN.md section 3 C07'),
+    'C08': (
+        'exhaustive configuration matrix on fixed tree shapes + Hypothesis-generated trees; reference model of the documented flag/scope precedence',
+        'Every mutating op of the list/dict/object API (canonical arguments) x 5 protection modes (seal(), sealed at construction, '
+        'as_sealed scope, accessor_writable=False, allow_writable_accessors scope) x stacks of nested scope overrides over '
+        '{True, False, None} x target level (node, child, grandchild, rebind from the parent) is enumerated on 6 fixed tree shapes '
+        '(quick: stacks of depth <=2 per flag; thorough: the full product), plus generated trees. A 6-line reference of the documented '
+        'precedence decides what must be refused; refused writes must raise WritePermissionError and leave tree and flags unchanged, '
+        'allowed writes must not be refused, no op may change protection flags of surviving nodes, and removing the protection '
+        'restores mutability. Exploration with an exhaustive finite sub-domain.',
+        'Innermost scope wins, None defers to the object flag; under disabled accessors only accessor assignment/deletion and rebind are specified; values are built outside the scopes.',
+        'DESIGN.md section 3 C08'),
 }
 
 NOT_BUILT = 'check not built yet in this round (planned; see DESIGN.md section 3)'
